@@ -440,13 +440,69 @@ theorem rmw_got_live {g1 g2 : List Nat} {op : BOp} {v : Blk} {res : BRes} (hw : 
         obtain ⟨h', hl⟩ := this
         exact ⟨h', gc_keeps_live h3 hl⟩
 
+theorem rmw_got_live_h {g1 g2 : List Nat} {op : BOp} {v : Blk} {res : BRes} (hw : WF v)
+    (h : rmw g1 op g2 v = some res) {o : Nat} (ho : o ∈ res.got) :
+    res.v.slots[o]? = some (Slot.live (opHandle op)) := by
+  unfold rmw at h
+  split at h
+  · cases h
+  · rename_i b1 h1
+    split at h
+    · cases h
+    · rename_i r1 h2
+      split at h
+      · cases h
+      · rename_i b2 h3
+        injection h with h; subst h
+        have hw1 := wf_gc hw h1
+        have : r1.v.slots[o]? = some (Slot.live (opHandle op)) := by
+          cases op with
+          | assign h' k rv =>
+            simp only [applyBOp] at h2
+            split at h2
+            · injection h2 with h2; subst h2
+              exact autoAssign_got_live (k := k) (h := h') (rv := rv) hw1 ho
+            · cases h2
+          | assignIP h' o' =>
+            simp only [applyBOp] at h2
+            split at h2
+            · rename_i v' hv; injection h2 with h2; subst h2
+              simp only [List.mem_singleton] at ho; subst ho
+              unfold assignIP at hv
+              split at hv
+              · rename_i hc
+                injection hv with hv; subst hv
+                have hc' : b1.slots[o]? = some Slot.free := by simpa using hc
+                have : o < b1.slots.length := by
+                  rcases Nat.lt_or_ge o b1.slots.length with hl | hl
+                  · exact hl
+                  · rw [List.getElem?_eq_none hl] at hc'; cases hc'
+                simp [this, opHandle]
+              · cases hv
+            · cases h2
+          | release h' ords =>
+            simp only [applyBOp] at h2
+            split at h2
+            · injection h2 with h2; subst h2; simp at ho
+            · cases h2
+          | relh h' =>
+            simp only [applyBOp] at h2
+            split at h2
+            · injection h2 with h2; subst h2; simp at ho
+            · cases h2
+          | clearAff => simp only [applyBOp] at h2; injection h2 with h2; subst h2; simp at ho
+          | bump => simp only [applyBOp] at h2; injection h2 with h2; subst h2; simp at ho
+        exact gc_keeps_live h3 this
+
 /-- `got` of a thread grows only by that thread's own successful compare-and-swap on
 the block, and what it adds is live in the value that CAS stored. -/
 theorem got_grows_only_by_own_cas {s s' : St} {e : Ev} (hw : AllWF s) (h : step s e = some s')
     {t b o : Nat} (hin : (b, o) ∈ s'.got t) (hnot : (b, o) ∉ s.got t) :
     ∃ c, e = Ev.call c ∧ c.t = t ∧ c.key = Key.blk b ∧
       casOutcome (s.curRev c.key) c.verb c.rev c.fault = Outcome.ok ∧
-      ∃ rv v h', s'.blk b = some (rv, v) ∧ v.slots[o]? = some (Slot.live h') := by
+      ∃ g1 op g2 rv v, c.pl = Payload.blkRmw g1 op g2 ∧ s'.blk b = some (rv, v) ∧
+        v.slots[o]? = some (Slot.live (opHandle op)) ∧
+        c.verb = Verb.update ∧ ∃ rv0 v0 res, s.blk b = some (rv0, v0) ∧ rmw g1 op g2 v0 = some res ∧ o ∈ res.got := by
   cases e with
   | tick => simp only [step] at h; injection h with h; subst h; exact absurd hin hnot
   | «begin» t' =>
@@ -489,8 +545,8 @@ theorem got_grows_only_by_own_cas {s s' : St} {e : Ev} (hw : AllWF s) (h : step 
                   · obtain ⟨o', ho', heq⟩ := List.mem_map.1 h1
                     injection heq with hb0 ho0
                     subst hb0; subst ho0
-                    obtain ⟨h', hl⟩ := rmw_got_live (hw _ _ _ hb) hr ho'
-                    exact ⟨c, rfl, et.symm, hk, hok, s.rev + 1, res.v, h', by simp [upd], hl⟩
+                    have hl := rmw_got_live_h (hw _ _ _ hb) hr ho'
+                    exact ⟨c, rfl, et.symm, hk, hok, g1, op, g2, s.rev + 1, res.v, hp, by simp [upd], hl, hv, rv, v, res, hb, hr, ho'⟩
                 · exact absurd hin hnot
         all_goals first
           | (cases h; done)
@@ -511,9 +567,62 @@ theorem got_grows_only_by_own_cas {s s' : St} {e : Ev} (hw : AllWF s) (h : step 
                   | (cases h; done)
                   | (injection h with h; subst h; exact absurd hin hnot)))
       · injection h with h; subst h; exact absurd hin hnot
-    · split at h <;> (injection h with h; subst h; exact absurd hin hnot)
     · injection h with h; subst h; exact absurd hin hnot
 
 
+
+
+/-- The `ownOk` guard of `Cas.step`: a successful write made with the affinity check by host
+`x` is a compare-and-swap against a stored block recording `x` as its affinity. -/
+theorem own_guard {s s' : St} {c : Call} {x b : Nat}
+    (h : step s (.call c) = some s') (hown : c.own = some x) (hk : c.key = Key.blk b)
+    (hw : c.verb.isWrite = true)
+    (hok : casOutcome (s.curRev c.key) c.verb c.rev c.fault = Outcome.ok) :
+    ∃ r v, s.blk b = some (r, v) ∧ v.aff = some x := by
+  simp only [step, hok, hw, if_true] at h
+  split at h
+  · rename_i ho
+    unfold ownOk at ho
+    rw [hown, hk] at ho
+    simp only at ho
+    split at ho
+    · rename_i r v hb; exact ⟨r, v, hb, by simpa using ho⟩
+    · cases ho
+  · cases h
+
+/-- The ordinals an `autoAssign` read-modify-write records are not among the reserved ones it was given. -/
+theorem rmw_assign_not_reserved {g1 g2 : List Nat} {h k : Nat} {rv : List Nat} {v : Blk} {res : BRes}
+    (hr : rmw g1 (.assign h k rv) g2 v = some res) {o : Nat} (ho : o ∈ res.got) : o ∉ rv := by
+  unfold rmw at hr
+  split at hr
+  · cases hr
+  · rename_i b1 h1
+    split at hr
+    · cases hr
+    · rename_i r1 h2
+      split at hr
+      · cases hr
+      · injection hr with hr; subst hr
+        simp only [applyBOp] at h2
+        split at h2
+        · injection h2 with h2; subst h2
+          simp only [autoAssign] at ho
+          clear h1
+          revert ho
+          generalize b1.unalloc = u
+          intro ho
+          have : ∀ (k : Nat) (u : List Nat), ∀ o ∈ (takeFree rv k u).1, o ∉ rv := by
+            intro k u
+            fun_induction takeFree rv k u with
+            | case1 u => simp
+            | case2 k => simp
+            | case3 k x u hx r ih => exact ih
+            | case4 k x u hx r ih =>
+              intro o ho
+              rcases List.mem_cons.1 ho with rfl | ho
+              · simpa using hx
+              · exact ih o ho
+          exact this k u o ho
+        · cases h2
 
 end CalicoVerif.C19
